@@ -1,6 +1,8 @@
 (* C17 (proxy part) - effective time-outs and the retry policy.  Only statements here.  (Route actions / header mutation: group
    `router`, Props/C17_route.v.) *)
 From Coq Require Import List ZArith Bool.
+From RecordUpdate Require Import RecordSet.
+Import RecordSetNotations.
 (* Model.ProxyCheck (the correspondence checker used by the case shards) is imported so that it is built with this file *)
 From MV Require Import Model.ProxyCheck.
 From MV Require Import Model.Proxy Model.ProxySpec Model.ProxyTimeout Proofs.ProxyReach Proofs.ProxyFamily Proofs.ProxyFam
@@ -38,31 +40,95 @@ Example c17_timeout_example :
     {| t_route_g := 200; t_route_t := 90; t_hdr_g := None; t_hdr_t := None; t_var_g := Some 0; t_var_t := Some 0 |} = (60000, 0).
 Proof. repeat split; reflexivity. Qed.
 
-(* ---- retry conditions: doRetryCheck, for EVERY policy ---- *)
+(* ---- retry conditions: doRetryCheck, for EVERY policy ----
+   [retry_rule c status why]: the decision on the status the mapping yields (None = the mapping fails or is not consulted); the
+   status branch comes first, the reset reasons are looked at only when there is no status.
+   [retry_check src c hdr why s]: the same with the status taken from where the code takes it - [mapped_status]: hdr = Some z
+   when a response with status z is judged, None when a reset is; in the HTTP flavour ([c_http]: HTTP/1.1 and HTTP/2 upstreams,
+   protocol.GetStatusCodeMapping) the mapping ignores the headers and reads the x-mosn-status variable of the request context
+   ([status_var]: set by the client stream when a response arrives and by sendHijackReply, never cleared between attempts). *)
 (* on a response: only with retry_on, and only for a listed status (or, with no list, a 5xx) *)
 Theorem c17_retry_condition_response : forall c code,
-  retry_check c (Some code) RsEmpty = true <->
+  retry_rule c (Some code) RsEmpty = true <->
   c_retry_on c = true /\ ((c_codes c = [] /\ 500 <= code) \/ (c_codes c <> [] /\ In code (c_codes c))).
 Proof. exact retry_check_response. Qed.
 Print Assumptions c17_retry_condition_response.
 (* on a reset: connection failure always; per-try time-out and connection termination with retry_on; overflow, the global
    time-out and every other reason never *)
 Theorem c17_retry_condition_reset : forall c why,
-  retry_check c None why = true <->
+  retry_rule c None why = true <->
   why <> RsOverflow /\ (why = RsConnFailed \/ (c_retry_on c = true /\ (why = RsPerTryTimeout \/ why = RsTermination))).
 Proof. exact retry_check_reset. Qed.
 Print Assumptions c17_retry_condition_reset.
+(* the decision for attempt k depends only on attempt k's outcome.
+   (a) a RESET is judged by its reason alone, whatever an earlier attempt's response left in the request context: every
+       configuration (both flavours), every state - doRetryCheck does not consult the status mapping when a reset is judged
+       (switch read from the source on this run) *)
+Theorem c17_reset_status_not_consulted : reset_reads_status proxy_src = false.
+Proof. exact (eq_refl false). Qed.
+Theorem c17_reset_judged_by_reason_only : forall c why s, retry_check proxy_src c None why s = retry_rule c None why.
+Proof. exact (fun c why s => retry_reset_by_reason_only src_tree c why s (or_introl eq_refl)). Qed.
+Print Assumptions c17_reset_judged_by_reason_only.
+(*     with the mapping consulted for resets (switch set back; repaired by 291bbf824) it fails in the HTTP flavour: a remote reset -
+       no configured retry condition - after a retried 503 is retried on the stale 503 *)
+Theorem c17_reset_stale_status_refuted : ~ reset_by_reason_statement src_stale_status.
+Proof. exact refuted_reset_reads_status. Qed.
+Example c17_stale_status_witness :
+  nnew (final src_stale_status cfg_http_codes sched_503_then_reset) = 3%nat /\
+  nnew (final src_tree cfg_http_codes sched_503_then_reset) = 2%nat /\
+  g_reply_kind (summ src_tree cfg_http_codes sched_503_then_reset) = Some (KHijack, reason_code src_tree RsRemoteReset) /\
+  nnew (final src_stale_status (cfg_http_codes <| c_http := false |>) sched_503_then_reset) = 2%nat.
+Proof. exact witness_stale_status. Qed.
+(* (b) a RESPONSE is judged by its own status: when the mapping reads the headers, for every configuration and state ... *)
+Theorem c17_response_judged_by_own_status : forall src c z why s,
+  c_http c = false -> retry_check src c (Some z) why s = retry_rule c (Some z) why.
+Proof. exact retry_response_by_own_status. Qed.
+Print Assumptions c17_response_judged_by_own_status.
+(*     ... and in the HTTP flavour over the family (which has 43 HTTP configurations) x every schedule: whenever onUpstreamHeaders
+       hands a response to the retry state, the context variable holds that response's status *)
+Theorem c17_response_judged_by_own_status_family : forall c, In c family -> forall sched, Forall allowed sched ->
+  x_stale (final proxy_src c sched) = false.
+Proof. exact c17_own_status_family. Qed.
+Print Assumptions c17_response_judged_by_own_status_family.
 (* a retry is set up only where retry() said so: it consumes one unit of the budget and requires the condition *)
 Theorem c17_retry_only_if_condition : forall src c code why s,
   let '(s', _, r) := rs_retry src c code why s in
-  r = RShould -> retry_check c code why = true /\ exists n, retry s = Some (S n) /\ retry s' = Some n.
+  r = RShould -> retry_check src c code why s = true /\ exists n, retry s = Some (S n) /\ retry s' = Some n.
 Proof. exact retry_should_spec. Qed.
 Print Assumptions c17_retry_only_if_condition.
-(* the global time-out is never retried *)
-Theorem c17_global_timeout_not_retried : forall src c s,
+(* the global time-out is never retried: onUpstreamReset keeps UpstreamGlobalTimeout away from the retry state (switch read from
+   the source on this run); every configuration, every state in which the reply has not started: no retry is set up, no attempt is
+   started, the 504 local reply is pending *)
+Theorem c17_global_timeout_excluded : reset_excludes_global proxy_src = true.
+Proof. exact (eq_refl true). Qed.
+Theorem c17_global_timeout_not_retried : forall c s,
   resp_started s = false ->
-  let '(s', _) := on_upstream_reset src c RsGlobalTimeout s in setup_retry s' = setup_retry s /\ direct s' = true.
-Proof. exact global_timeout_not_retried. Qed.
+  let '(s', _) := on_upstream_reset proxy_src c RsGlobalTimeout s in
+  setup_retry s' = setup_retry s /\ direct s' = true /\ nnew s' = nnew s /\
+  exists d o, rsp s' = Some {| r_kind := KHijack; r_code := reason_code proxy_src RsGlobalTimeout; r_data := d; r_trailers := false; r_body := o |}.
+Proof. exact (fun c s => global_timeout_not_retried src_tree c s eq_refl). Qed.
+Print Assumptions c17_global_timeout_not_retried.
+(* (that the expiry of the global timer of a parked request ends it with the complete 504 reply, for the family x every schedule,
+   HTTP configurations included, is c03_timeout_reply_family in Props/C03.v)
+   with UpstreamGlobalTimeout handed to the retry state and the status mapping consulted for resets (switches set back): after a
+   retried 503 the global time-out is retried on the stale 503 - a third attempt with no global timer armed, and its 200 reaches the
+   client instead of the 504 *)
+Example c17_global_timeout_retried_witness :
+  nnew (final src_global_retried cfg_http_codes sched_503_then_global) = 3%nat /\
+  x_nog (final src_global_retried cfg_http_codes sched_503_then_global) = true /\
+  g_reply_kind (summ src_global_retried cfg_http_codes sched_503_then_global) = Some (KUp, 200) /\
+  nnew (final src_tree cfg_http_codes sched_503_then_global) = 2%nat /\
+  g_reply_kind (summ src_tree cfg_http_codes sched_503_then_global) = Some (KHijack, 504) /\
+  g_ended (summ src_tree cfg_http_codes sched_503_then_global) = true /\
+  nnew (final (src_tree <| reset_reads_status := true |>) cfg_http_codes sched_503_then_global) = 2%nat.
+Proof. exact witness_global_timeout_retried. Qed.
+Example c17_http_example :
+  let c := mk false false false RouteForward 2 true 2 [503] false 0 [] [] [] <| c_http := true |> in
+  let sched := repeat Worker 12 ++ [Env (EvUpResp 0 503 false false)] ++ drive ++ [Env EvGlobal] ++ drive in
+  In c family /\ Forall allowed sched /\ g_new (summ proxy_src c sched) = 2%nat /\
+  g_reply_kind (summ proxy_src c sched) = Some (KHijack, 504) /\ g_ended (summ proxy_src c sched) = true /\
+  quiescent (final proxy_src c sched) = true /\ cleaned (final proxy_src c sched) = true.
+Proof. exact c17_http_example_holds. Qed.
 
 (* the budget read from the source: max(min_budget, num_retries) *)
 Theorem c17_budget : forall c, budget proxy_src c = Nat.max proxy_min_budget (c_num_retries c).
